@@ -203,6 +203,15 @@ class C04(Oracle):
         b = before[id(n)][0]
         rewards = _attr(n, "rewards") if ag["kind"] != "VROOM" else _attr(n, "reward")
         led = self.led(n)
+        if self.lenient and ag["kind"] in ("T_HOO", "HCT", "VHCT"):
+            # infrastructure mode for the tree bandits: the credited cell is known, so the ledger records the truth of the
+            # history whatever the library stored (a truncated or rewritten reward list then shows where C05 / C06 look:
+            # in the mean inside U, in the pull count against the threshold)
+            if len(rewards) != len(led.list) + 1 or not _same_value(rewards[-1], r):
+                ctx.stats["ledger-library-stored-differently"] += 1
+            led.list.append(r)
+            led.count += 1
+            return
         if len(rewards) != len(led.list) + 1:
             ctx.fail("C04", "credit-value", "%s: %s holds %d rewards after this round, history says %d" % (
                 ag["kind"], what, len(rewards), len(led.list) + 1))
